@@ -276,7 +276,7 @@ def len1(ctx, rep, prog):
                           "outside the intended window", where=where)
 
 
-def len2(rep, prog):
+def len2(rep, prog, rid="LEN-2", only_receive=False):
     try:
         md = prog.one(name="deserialize", self_name="Message", crate="statime-lib")
         pv = df.Prov(md)
@@ -295,9 +295,9 @@ def len2(rep, prog):
             else:
                 continue
             if ok:
-                rep.ok("LEN-2", md.key, "%s from the declared window" % tag, detail=s[:200], where=fc.where(md, t["sp"][1]))
+                rep.ok(rid, md.key, "%s from the declared window" % tag, detail=s[:200], where=fc.where(md, t["sp"][1]))
             else:
-                rep.violation("LEN-2", md.key, "%s from the declared window" % tag,
+                rep.violation(rid, md.key, "%s from the declared window" % tag,
                               "the %s is parsed from `%s`, not from buffer.get(34..messageLength): octets beyond the declared "
                               "length are read" % (tag, s[:300]), where=fc.where(md, t["sp"][1]))
         # message_length >= 34 check
@@ -309,9 +309,11 @@ def len2(rep, prog):
                     if l[0] == "cmp" and l[1] == "ge" and "message_length" in df.canon(l[2], md) and df.strip(l[3]) == ("const", 34):
                         okmin = True
         if okmin:
-            rep.ok("LEN-2", md.key, "messageLength >= 34", where=md.loc())
+            rep.ok(rid, md.key, "messageLength >= 34", where=md.loc())
         else:
-            rep.violation("LEN-2", md.key, "messageLength >= 34", "a declared length below the header size is not rejected", where=md.loc())
+            rep.violation(rid, md.key, "messageLength >= 34", "a declared length below the header size is not rejected", where=md.loc())
+        if only_receive:
+            return
         ms = prog.one(name="serialize", self_name="Message", crate="statime-lib")
         pvs = df.Prov(ms)
         oks = False
@@ -321,13 +323,13 @@ def len2(rep, prog):
                 oks = True
         ret = df.canon(pvs.local_tree(0), ms)
         if oks and "Ok(wire_size(self))" in ret:
-            rep.ok("LEN-2", ms.key, "declared length = header + body + suffix", where=ms.loc())
+            rep.ok(rid, ms.key, "declared length = header + body + suffix", where=ms.loc())
         else:
-            rep.violation("LEN-2", ms.key, "declared length = header + body + suffix",
+            rep.violation(rid, ms.key, "declared length = header + body + suffix",
                           "messageLength / returned size is not 34 + body + suffix (content length form ok: %s, return: %s)" % (oks, ret[:120]),
                           where=ms.loc())
     except AnchorMissing as e:
-        rep.anchor_missing("LEN-2", str(e))
+        rep.anchor_missing(rid, str(e))
 
 
 def len3(rep, prog):
